@@ -887,8 +887,21 @@ CARRY = {
 # ----------------------------------------------------------------------------
 MORPHS = ["--", "Nom.Sg.Masc", "3.Sg.Pres.Ind", "Dat.Pl", "Nom.Sg.", "Nom.Sg.M"]      # lengths 2,11,13,6,7,8
 LEMMAS = ["--", "der", "Hund", "bellen", "äußern", "1234567", "12345678", "123456789012345", "1234567890123456"]
+# fields at and beyond the width of their export column (word / lemma 24, morph 16): one tab, never none
+LONG_LENGTHS = [23, 24, 25, 31, 32, 40]
+LONG_MORPH_LENGTHS = [15, 16, 17, 24]
+LONG_FIELDS = ["ABCDEFGHIJKLMNOPQRSTUVWXYZabcdefghijklmnopqrstuvwxyz"[:n] for n in LONG_LENGTHS]
+LONG_MORPHS = ["3.Sg.Pres.Ind.Akt.Nom.Sg.Masc"[:n] for n in LONG_MORPH_LENGTHS]
 WORDS_ALL = tg.WORDS_PLAIN + tg.WORDS_PUNCT + tg.WORDS_SPECIAL + ["(()", "a)b)"]   # repeated parentheses
 WORDS_NOPAREN = [w for w in WORDS_ALL if not has_paren(w)]
+# Characters that str.isspace() / str.split() treat as space but that are NOT whitespace of the
+# bracket formats (whose whitespace is the ASCII set WS_CHARS = string.whitespace): inside a word
+# or a label they are ordinary token characters.  The export format (fields split at any
+# whitespace) cannot carry such words; XML 1.0 can carry those >= U+0080 (USPACE_XML).
+USPACE_CHARS = ["\u00a0", "\u3000", "\u0085", "\u2028", "\x1c", "\x1d", "\x1e", "\x1f"]
+WORDS_USPACE = ["10\u00a0000", "\u3000", "x\u0085y", "p\u2028", "\x1cf", "g\x1dh", "i\x1e\x1fj", "\u00a0k"]
+WORDS_USPACE_XML = [w for w in WORDS_USPACE if all(ord(ch) >= 0x80 or ch.isalnum() for ch in w)]
+POS_USPACE = ["N\u00a0N", "$\x1f", "A\u2028"]
 
 
 def _encodable(s, enc):
@@ -902,7 +915,7 @@ def _encodable(s, enc):
 WORDS_LATIN1 = [w for w in WORDS_ALL if _encodable(w, "latin-1")]
 
 
-def decorate(spec, rng, words=None, morph=True, lemma=True, pos=None):
+def decorate(spec, rng, words=None, morph=True, lemma=True, pos=None, morphs=None, lemmas=None):
     """fill in words / morph / lemma from the pools (in place), returns spec"""
     for leaf in tg.spec_leaves(spec):
         if words is not None:
@@ -910,9 +923,9 @@ def decorate(spec, rng, words=None, morph=True, lemma=True, pos=None):
         if pos is not None:
             leaf["l"] = rng.choice(pos)
         if morph:
-            leaf["m"] = rng.choice(MORPHS)
+            leaf["m"] = rng.choice(morphs or MORPHS)
         if lemma:
-            leaf["lem"] = rng.choice(LEMMAS)
+            leaf["lem"] = rng.choice(lemmas or LEMMAS)
     return spec
 
 
